@@ -948,7 +948,7 @@ Plan gen_c14(uint64_t seed, bool th) {
   static const char *pool[] = {"com.example.a", "com.example.b", "org.test.Svc"};
   g.sh.names = {pool[g.r.below(3)], pool[g.r.below(3)]};
   g.p.cfg["oom.enumerate"] = "1";
-  if (g.r.pct(30)) g.p.cfg["policy.spec"] = pol::encode(requested_replies_only_policy());
+  if (g.r.pct(50)) g.p.cfg["policy.spec"] = pol::encode(requested_replies_only_policy());
   g.connect_all(false, true);
   // a history that builds some state: names with queues, rules, an outstanding call
   int nh = (int)g.r.range(2, th ? 14 : 8);
@@ -971,8 +971,16 @@ Plan gen_c14(uint64_t seed, bool th) {
   else if (op < 44) { bool vh; std::string rule = gen_rule(g, &vh); g.add(g.mk("addmatch", c, {-1}, {vh ? rule : std::string("type='signal',member='Do'")})); }
   else if (op < 52) { g.add(g.mk("rmmatch", c, {-1}, {"type='signal',sender='org.freedesktop.DBus',member='NameOwnerChanged'"})); }
   else if (op < 64) g.add(g.mk("send", c, {1, g.r.pct(20) ? 1 : 0, -1}, {g.r.pct(60) ? g.a_name() : "$u" + std::to_string(g.a_client()), "/obj", "com.example.Iface", "Do", "", "", "s:payload"}));
-  else if (op < 74) g.add(g.mk("send", c, {4, 0, -1}, {"", "/com/example/obj", "com.example.Iface", "Do", "", "", "s:a"}));
-  else if (op < 80) g.add(g.mk("reply", c, {0, (int64_t)g.r.below(2), -1}));
+  else if (op < 70) g.add(g.mk("send", c, {4, 0, -1}, {"", "/com/example/obj", "com.example.Iface", "Do", "", "", "s:a"}));
+  else if (op < 80) {
+    // a reply that consumes a slot: make sure there is a call to answer
+    int caller = (c + 1) % g.sh.nclients;
+    g.add(g.mk("send", caller, {1, 0, -1}, {"$u" + std::to_string(c), "/obj", "com.example.Iface", "Ask", "", ""}));
+    g.add(g.bus_step(3));
+    g.add(g.mk("drain", c));
+    g.add(g.mk("check"));
+    g.add(g.mk("reply", c, {0, (int64_t)g.r.below(2), -1}));
+  }
   else if (op < 88) {
     int ni = g.sh.nclients++;
     g.add(g.mk("connect", ni, {0, 0, 1000 + ni, 0, 0}));
